@@ -182,6 +182,7 @@ func checkArch(a archCfg, ops []string, arity3 bool) (res result, fails []failur
 		}
 	}
 	maxw := m.Arch.Max_word()
+	var okLines [][2]string // a few accepted (line, word) pairs for the whole-program oracle below
 	tryLine := func(opname string, toks []token) {
 		parts := []string{opname}
 		classes := []string{}
@@ -288,6 +289,9 @@ func checkArch(a archCfg, ops []string, arity3 bool) (res result, fails []failur
 			fail("reassemble-mismatch", fmt.Sprintf("asm(disasm(%s)) = %q, %v", word, w2, e2))
 			return
 		}
+		if len(okLines) < 6 && (len(okLines) == 0 || okLines[len(okLines)-1][1] != word) {
+			okLines = append(okLines, [2]string{line, word})
+		}
 		key := opname + "|" + strings.Join(classes, ",")
 		if !res.distinct[key] {
 			res.distinct[key] = true
@@ -315,6 +319,61 @@ func checkArch(a archCfg, ops []string, arity3 bool) (res result, fails []failur
 			}
 		}
 	}
+	// whole programs: Arch.Assembler on the accepted lines in every "layout" of comment lines and blank lines
+	// (before, between, after the instructions, several in a row). The program is exactly the words of the
+	// instruction lines, in order, each of the architecture's width, and it disassembles; text that does not fit
+	// the code memory is an error, never a panic.
+	capacity := 1 << a.O
+	if a.Mode == "vn" || (a.Mode == "hy" && a.L > a.O) {
+		capacity = 1 << a.L
+	}
+	for n := 1; n <= len(okLines) && n <= 4; n++ {
+		for deco := 0; deco < 1<<uint(2*(n+1)); deco++ {
+			// two bits per gap (before line 0 .. after the last line): 0 nothing, 1 comment, 2 blank line, 3 both
+			var sb strings.Builder
+			for g := 0; g <= n; g++ {
+				switch deco >> uint(2*g) & 3 {
+				case 1:
+					sb.WriteString("# c\n")
+				case 2:
+					sb.WriteString("\n")
+				case 3:
+					sb.WriteString("# c\n\n")
+				}
+				if g < n {
+					sb.WriteString(okLines[g][0] + "\n")
+				}
+			}
+			text := sb.String()
+			res.lines++
+			var prog procbuilder.Program
+			var perr error
+			func() {
+				defer func() {
+					if p := recover(); p != nil {
+						perr = fmt.Errorf("panic: %v", p)
+						fails = append(fails, failure{"C03|program|asm-panic|layout", fmt.Sprintf("[%s, %d opcodes] Arch.Assembler panics on %q: %v", a, len(ops), text, p), map[string]any{"arch": a, "ops": ops, "program": text}})
+					}
+				}()
+				prog, perr = m.Arch.Assembler([]byte(text))
+			}()
+			if perr != nil {
+				if n <= capacity && !strings.HasPrefix(perr.Error(), "panic") {
+					fails = append(fails, failure{"C03|program|rejected|layout", fmt.Sprintf("[%s, %d opcodes] Arch.Assembler rejects %q (%d instructions, %d locations): %v", a, len(ops), text, n, capacity, perr), map[string]any{"arch": a, "ops": ops, "program": text}})
+				}
+				continue
+			}
+			bad := len(prog.Slocs) != n
+			for i := 0; !bad && i < n; i++ {
+				bad = prog.Slocs[i] != okLines[i][1]
+			}
+			if bad {
+				fails = append(fails, failure{"C03|program|words-differ-from-lines|layout", fmt.Sprintf("[%s, %d opcodes] Arch.Assembler(%q) gives %q, the %d instruction lines assemble to %q", a, len(ops), text, prog.Slocs, n, okLines[:n]), map[string]any{"arch": a, "ops": ops, "program": text}})
+				continue
+			}
+			res.accepted++
+		}
+	}
 	return
 }
 
@@ -337,11 +396,24 @@ func main() {
 			Arch archCfg  `json:"arch"`
 			Ops  []string `json:"ops"`
 			Line string   `json:"line"`
+			Prog string   `json:"program"`
 		}
 		if _, err := vlib.LoadReplay(run.Replay, &rp); err != nil {
 			panic(err)
 		}
 		m, _ := bmgen.NewMachine(bmgen.ArchSpec{Rsize: rp.Arch.Rsize, R: rp.Arch.R, N: rp.Arch.N, M: rp.Arch.M, L: rp.Arch.L, O: rp.Arch.O, Ops: rp.Ops, Shared: sharedAll, WordSize: rp.Arch.WordSize, Modes: rp.Arch.modes()})
+		if rp.Prog != "" {
+			func() {
+				defer func() {
+					if p := recover(); p != nil {
+						fmt.Printf("Arch.Assembler panics: %v\n", p)
+					}
+				}()
+				prog, err := m.Arch.Assembler([]byte(rp.Prog))
+				fmt.Printf("arch %s max_word=%d\nprogram %q -> words %q err=%v\n", rp.Arch, m.Arch.Max_word(), rp.Prog, prog.Slocs, err)
+			}()
+			return
+		}
 		w, err := m.Arch.Assembler_process_line([]byte(rp.Line))
 		fmt.Printf("arch %s max_word=%d\nline %q -> word %q (len %d) err=%v\n", rp.Arch, m.Arch.Max_word(), rp.Line, w, len(w), err)
 		if err == nil {
